@@ -10,7 +10,7 @@ K_CONTEXT = [
     {'crate': 'p3-circuit', 'harness': 'c19_set_witness_contract', 'profile': 'release'},
 ]
 PROPS = {
-    'C02': {'units': ['opt', 'fuse', 'run19', 'lower'], 'kani': K_ANALYSIS + [{'crate': 'p3-circuit', 'harness': 'c02_allocator_monotone'}], 'exclude': r'H_dup_out_unmentioned'},
+    'C02': {'units': ['expr', 'lower', 'opt', 'fuse', 'run19'], 'kani': K_ANALYSIS + [{'crate': 'p3-circuit', 'harness': 'c02_allocator_monotone'}], 'exclude': r'H_dup_out_unmentioned'},
     'C03': {'units': ['opt', 'fuse'], 'kani': K_ANALYSIS},
     'C19': {'units': ['run19'], 'kani': K_CONTEXT},
     'C20': {'units': ['gad', 'fri', 'periodic'], 'kani': [], 'only': {'fri': r'evaluate_polynomial|circuit_exp_by_constant|lemma_'}},
@@ -41,10 +41,14 @@ META = {
                 'of every op variant through it and touches nothing else, AluKey::{new,with_acc} identify two ALU ops only when their relations coincide '
                 '(lemma_same_key_same_relation over an abstract field), Deduplicator::run keeps the rewrite map acyclic and its kept ops on root slots. '
                 'Unit tests sample a handful of op lists; the loop invariants cover all of them. '
+                'Builder level (unit expr): over a denotation den(graph, valuation, id) of the expression DAG, every ExpressionBuilder operation (define_const, add, sub, mul, div, add_horner_acc, add_mul_add, '
+                'add_bool_check, public, private_input, connect, new) is proved for EVERY valuation to return an id denoting the operation on its operands — through every constant fold, algebraic shortcut '
+                '(x+0, x-x, 0*x, 1*x, x/1, 0/x, x/x), commutative key normalisation and pool hit — while the graph only grows and the five pools keep the invariant "a key maps to a node denoting the keyed operation". '
                 'Lowering (unit lower): every LoweringState::emit_* is proved, for every complete witness table, to emit ops whose relation (the one the runner is proved to establish, unit run19) '
                 'holds exactly when the node slot carries the value the Expr node denotes (add, both encodings of sub, mul, backwards-mul division, Horner step, bool check, mul-add), '
                 'emit_operations to dispatch every node to the emitter of its own kind with its own operands, emit_constants/publics/privates to bind every leaf to its value/position.',
-        'note': 'Expression-level folding/CSE (ExpressionBuilder), MulAddFusion::{identify_candidates, filter_valid, apply} and the non-primitive emitters are NOT under contract. '
+        'note': 'MulAddFusion::{identify_candidates, filter_valid, apply}, the non-primitive emitters and the CircuitBuilder wrappers above ExpressionBuilder are NOT under contract. '
+                'x/x folds to 1 and 0/x to 0: the division contract is stated for valuations with a non-zero divisor. Built without the debugging/profiling features (R10). '
                 'Trusted: Verus/Z3/vstd, Kani/CBMC, the extractor and its logged rewrites (R1-R12), hashbrown==std HashMap, key model of derived Hash/Eq, '
                 'opaque executors, wf_op shape of lowered ops.',
     },
